@@ -125,7 +125,7 @@ type c15FE struct {
 
 func init() {
 	register(&Prop{ID: "C15", Run: c15Run,
-		Rule: "operation types are enumerated by reflection from pipeline.OpSpec (recursively through pointed-to types); each is populated by kind (strings, *string, bool, []int, []string, maps, *ValOrRef / *AnyVal / ActionSpec / ChildActions decoded from YAML or built recursively) from a seed, cloned under a real ActionContext and compared field by field (nil/empty identified), bare and wrapped in OpSpec / ActionSpec / ChildActions — the wrapping value cloned directly and through a POINTER to it ((&spec).CloneWith(ctx), an equivalent entry point) —; slices are populated with 0..2 and with 3, 5, 6, 7, 9 elements; template cases put `{{ .x }}` into clone:\"template\" fields; configured-but-empty values (non-nil pointer to \"\" / false / 0 / empty slice, empty non-nil slices and maps) are populated per field, alone and next to all other fields; value-or-reference values are populated in both kinds and in the odd forms too (an immediate value that also has Ref set, a reference that also has Val set, an empty reference); template text also goes into text fields that are NOT tagged (string, *string, []string elements, *[]string elements, *ValOrRef: the clone may hold them verbatim or rendered) and every templated value is cloned twice under different data with a deep snapshot of the original (slice elements included) compared before/after, and the FIRST clone compared with what it was before the second one was made; FAILURE THEN SUCCESS: per text field of every operation type (and at random) the field holds a template that CANNOT be rendered — it parses and fails while it is being executed, after it has produced output (field of a scalar, undefined associated template, sprig's fail, index of a missing key; short and longer than 64 bytes), or it does not parse — while the other template fields hold templates that render, and/or the clone is preceded, in the same context, by the clone of another operation whose template cannot be rendered: the unrenderable text is kept as it is, every other field holds exactly the rendered text, and a plain log operation cloned afterwards holds its rendered message; exec cases run data-only specs (set, patch, template, log, abort, define+call, loop, forEach) as original and clone on equal data and as forEach bodies; vor cases take one value-or-reference — decoded scalar, decoded {ref: …}, composite literal with Ref AND Val, decoded reference with Val set; Ref / Val from {empty, path of a leaf, missing path, `{{ .x }}` with .x possibly empty} (small scope exhaustively, then random) — on its own ((*ValOrRef).CloneWith) and as every *ValOrRef field of every operation type found by reflection, bare / in OpSpec / in ActionSpec: the clone is compared field by field (the unexported kind flag included; reflect.DeepEqual with the original when template-free), resolved on data where the path named by Ref holds something else than Val, and executed (export: which files are written with what content, log lines; forEach over a query: log lines) against the original; feach cases run a forEach over 2-3 items whose body (log, set, template, patch, exec `true` with an argument list, in operations or in a steps child) uses `{{ .<variable> }}` and compare outcome, data and logs with a fresh copy of the body cloned+executed per item, and with a second run of the same forEach value. Non-trivial: at least one field populated. distinct = distinct canonical case JSON.",
+		Rule: "operation types are enumerated by reflection from pipeline.OpSpec (recursively through pointed-to types); each is populated by kind (strings, *string, bool, []int, []string, maps, *ValOrRef / *AnyVal / ActionSpec / ChildActions decoded from YAML or built recursively) from a seed, cloned under a real ActionContext and compared field by field (nil/empty identified), bare and wrapped in OpSpec / ActionSpec / ChildActions — the wrapping value cloned directly and through a POINTER to it ((&spec).CloneWith(ctx), an equivalent entry point) —; slices are populated with 0..2 and with 3, 5, 6, 7, 9 elements; template cases put `{{ .x }}` into clone:\"template\" fields; configured-but-empty values (non-nil pointer to \"\" / false / 0 / empty slice, empty non-nil slices and maps) are populated per field, alone and next to all other fields; value-or-reference values are populated in both kinds and in the odd forms too (an immediate value that also has Ref set, a reference that also has Val set, an empty reference); template text also goes into text fields that are NOT tagged (string, *string, []string elements, *[]string elements, *ValOrRef: the clone may hold them verbatim or rendered) and every templated value is cloned twice under different data with a deep snapshot of the original (slice elements included) compared before/after, and the FIRST clone compared with what it was before the second one was made; FAILURE THEN SUCCESS: per text field of every operation type (and at random) the field holds a template that CANNOT be rendered — it parses and fails while it is being executed, after it has produced output (field of a scalar, undefined associated template, sprig's fail, index of a missing key; short and longer than 64 bytes), or it does not parse — while the other template fields hold templates that render, and/or the clone is preceded, in the same context, by the clone of another operation whose template cannot be rendered: the unrenderable text is kept as it is, every other field holds exactly the rendered text, and a plain log operation cloned afterwards holds its rendered message; exec cases run data-only specs (set, patch, template, log, abort, define+call, loop, forEach) as original and clone on equal data (the clone first: the original must still be what it was after the clone ran) and as forEach bodies; vor cases take one value-or-reference — decoded scalar, decoded {ref: …}, composite literal with Ref AND Val, decoded reference with Val set; Ref / Val from {empty, path of a leaf, missing path, `{{ .x }}` with .x possibly empty} (small scope exhaustively, then random) — on its own ((*ValOrRef).CloneWith) and as every *ValOrRef field of every operation type found by reflection, bare / in OpSpec / in ActionSpec: the clone is compared field by field (the unexported kind flag included; reflect.DeepEqual with the original when template-free), resolved on data where the path named by Ref holds something else than Val, and executed (export: which files are written with what content, log lines; forEach over a query: log lines) against the original; feach cases run a forEach over 2-3 items whose body (log, set, template, patch, exec `true` with an argument list, in operations or in a steps child) uses `{{ .<variable> }}` and compare outcome, data and logs with a fresh copy of the body cloned+executed per item, and with a second run of the same forEach value. Non-trivial: at least one field populated. distinct = distinct canonical case JSON.",
 		Assumptions: []string{"text/template + sprig is an external library: the model renders only the micro-fragment `{{ .x }}`; template-free = no `{{` … `}}` pair in any string (possiblyTemplate is false)",
 			"helpers safeRenderStrPointer/safeRenderStrSlice/safeCopyIntSlice/safeCloneValOrRef are classified by name by the extractor; their behaviour is validated only by this harness",
 			"operations with OS effects (exec, templateFile, import, export, env, ext, html2dom) are cloned and compared but not executed — except exec of the program `true` (no output, no files) in feach cases and export in vor cases (into a scratch directory under .work, which is also the working directory while the operation runs)"}})
@@ -1305,6 +1305,10 @@ func c15EvalExec(c *Ctx, p c15Exec) {
 		map[string]any{"original": before, "clone": c15Dump(reflect.ValueOf(clone), 0)})
 	// the clone first: Do of some operations fills defaults into the value it runs on
 	rc := c15RunAction(p.Data, func(ex pipeline.Executor, _ dom.ContainerBuilder) error { return ex.Execute(clone) })
+	// the clone is an action of its own: running it (operations fill defaults into the value they run on) is not
+	// running the original
+	c.Direct("original-untouched-by-executing-the-clone", before == c15Dump(reflect.ValueOf(action), 0),
+		map[string]any{"before": before, "after the clone ran": c15Dump(reflect.ValueOf(action), 0)})
 	ro := c15RunAction(p.Data, func(ex pipeline.Executor, _ dom.ContainerBuilder) error { return ex.Execute(action) })
 	c.Dist("exec-outcome:" + ro.Out)
 	c.Direct("exec-same-outcome", ro.Out == rc.Out, map[string]any{"original": ro.Out, "clone": rc.Out})
